@@ -643,31 +643,32 @@ func insertSeparatorsEvery(s string, sep rune, interval int) string {
 	return strings.Join(chunks, string(sep))
 }
 
-func insertSeparatorsAt(integer string, sep rune, positions []int, fromRight bool) string {
+// insertSeparatorsAt inserts separators into a string of digits.
+// Each position is the number of digits between the separator and
+// the decimal point, i.e. counted from the right hand end of an
+// integer part and from the left hand end of a fractional part.
+// A separator is only inserted between two digits.
+func insertSeparatorsAt(digits string, sep rune, positions []int, fromRight bool) string {
 
-	s := integer
-	chunks := make([]string, 0, len(positions)+1)
+	l := utf8.RuneCountInString(digits)
 
-	for i := range positions {
-
-		n := positions[i]
-		if fromRight {
-			n = utf8.RuneCountInString(s) - n
+	var buf strings.Builder
+	i := 0
+	for _, r := range digits {
+		if i > 0 {
+			n := i
+			if fromRight {
+				n = l - i
+			}
+			if indexInt(positions, n) != -1 {
+				buf.WriteRune(sep)
+			}
 		}
-
-		pos := 0
-		for n > 0 {
-			_, w := utf8.DecodeRuneInString(s[pos:])
-			pos += w
-			n--
-		}
-
-		chunks = append(chunks, s[:pos])
-		s = s[pos:]
+		buf.WriteRune(r)
+		i++
 	}
 
-	chunks = append(chunks, s)
-	return strings.Join(chunks, string(sep))
+	return buf.String()
 }
 
 func splitStringAtRune(s string, r rune) (string, string) {
